@@ -31,7 +31,46 @@ enum Fail {
     FilterSend,
     FilterSelect,
     InjectedWrite(FaultKind),
+    /// a pure builtin called outside its domain (index into EDGE_CALLS)
+    Edge(usize),
 }
+
+/// Out-of-domain calls of pure builtins (boundary integers, empty / unaligned / sliced binaries): each
+/// must end the calling process with a runtime error, never with a panic of its worker.
+const EDGE_CALLS: [&str; 32] = [
+    "-65 __binary_new__",
+    "18446744073709551616 __binary_new__",
+    "[-9223372036854775809, 64] __integer_xor__",
+    "[18446744073709551616, -1000000000000000000000000000000] __integer_shift__",
+    "-1000000000000000000000000000000 __integer_popcount__",
+    "[-1000000000000000000000000000000, 7] __integer_or__",
+    "[0x00, 0x, -65] __vector_add__",
+    "[[0xab, 5] __binary_repeat__, [0xab, 5] __binary_repeat__, 9223372036854775807] __vector_add__",
+    "[0x, 0x0102, 2147483648] __vector_subtract__",
+    "[0xff, 0xff, 1000000000000000000000000000000] __vector_multiply__",
+    "[0x00, 0x, -9223372036854775808] __vector_less_than__",
+    "[3 __binary_new__, 0x00, 9223372036854775808] __vector_equal__",
+    "[0x0102, 0x0102030405060708, 16777217] __vector_greater_than__",
+    "[0xff, 0x0102, 18446744073709551616] __vector_dot__",
+    "[0x, 7, 0x0102] __vector_take__",
+    "[0x00, -9223372036854775808, -9223372036854775809] __vector_get__",
+    "[0x, 9, -9223372036854775808] __vector_push__",
+    "[0x00, 65] __vector_sum__",
+    "[0x010203040506070809, -1] __binary_repeat__",
+    "[[0x01, 0x02] __binary_concat__, 16777216] __binary_repeat__",
+    "[0x010203040506070809, 1000000000000000000000000000000] __binary_repeat__",
+    "[[0x010203, 1, 2] __binary_slice__, 64, -9223372036854775808, 9223372036854775807] __binary_get__",
+    "[0x00, 0, 9223372036854775807, 1] __binary_get__",
+    "[0x00, 8, 0, 0] __binary_get__",
+    "[0x010203040506070809, 65, -9223372036854775809, 18446744073709551616, 7] __binary_set__",
+    "[0x00, 63, -64, 0, 64] __binary_set__",
+    "[[0xab, 5] __binary_repeat__, -9223372036854775809, 9223372036854775808] __binary_slice__",
+    "[0x0102, 8, 7] __binary_slice__",
+    "[0x0102030405060708, 2147483648, 2147483648] __binary_index__",
+    "[[0x01, 0x02] __binary_concat__, 63, -65] __binary_index__",
+    "[0x0102030405060708, 65, 9] __binary_append__",
+    "[0x00, -1000000000000000000000000000000] __binary_shift__",
+];
 
 fn victim_def(f: Fail, spin: u32, receives: bool) -> (String, bool) {
     // returns (definition, io)
@@ -48,6 +87,7 @@ fn victim_def(f: Fail, spin: u32, receives: bool) -> (String, bool) {
         Fail::FilterSpawn => ("! [#'int { =q, @#{ 1 }, Ok }]".to_string(), false),
         Fail::FilterSend => ("me = &., ! [#'int { =q, 1 me, Ok }]".to_string(), false),
         Fail::FilterSelect => ("! [#'int { =q, z = ! [5], Ok }]".to_string(), false),
+        Fail::Edge(k) => (format!("x = [{}], 0", EDGE_CALLS[k % EDGE_CALLS.len()]), false),
     };
     (format!("victim = #'int {{ =n, {pre}w = [{spin}, 0] spin, {op} }}"), io)
 }
@@ -99,7 +139,7 @@ impl Property for C15 {
             Fail::InjectedWrite(FaultKind::SubmitError),
             Fail::InjectedWrite(FaultKind::CompleteError),
         ];
-        let f = *rng.pick(&fails);
+        let f = if rng.chance(1, 5) { Fail::Edge(rng.usize(EDGE_CALLS.len())) } else { *rng.pick(&fails) };
         let filter_kind = matches!(f, Fail::FilterSpawn | Fail::FilterSend | Fail::FilterSelect);
         let receives = !filter_kind && rng.chance(1, 2);
         let vspin = *rng.pick(&[0u32, 0, 5, 20, 60]);
